@@ -148,17 +148,43 @@ fn main() {
                 }
             }
         }
-        // the same type recorded twice, once correctly and once not
+        // the same type recorded twice, once correctly and once not - in both orders (an assertion table keyed
+        // by type name only keeps one of the two entries)
         for (what, s2, a2) in [("size", if *size > 1 { size / 2 } else { size + 1 }, *align), ("alignment", *size, if *align > 1 { align / 2 } else { 2 })] {
             for second_later in [false, true] {
-                let mut b = NativeRecordDefinitionBuilder::new(HostTypeResolver);
-                add(&mut b, "good", ty, *size, *align, false);
-                if second_later {
+                for bad_first in [false, true] {
+                    let mut b = NativeRecordDefinitionBuilder::new(HostTypeResolver);
+                    if bad_first {
+                        add(&mut b, "bad", ty, s2, a2, false);
+                    } else {
+                        add(&mut b, "good", ty, *size, *align, false);
+                    }
+                    if second_later {
+                        b.close_record_variant();
+                    }
+                    if bad_first {
+                        add(&mut b, "good", ty, *size, *align, false);
+                    } else {
+                        add(&mut b, "bad", ty, s2, a2, false);
+                    }
                     b.close_record_variant();
+                    out.probe("C11", "reject", &format!("type {} recorded twice, {} with a wrong {} ({} / {}), second datum in variant {}", tn, if bad_first { "the first time" } else { "the second time" }, what, s2, a2, second_later as u8), b, "", "");
                 }
-                add(&mut b, "bad", ty, s2, a2, false);
-                b.close_record_variant();
-                out.probe("C11", "reject", &format!("type {} recorded twice, the second time with a wrong {} ({} / {}), second datum in variant {}", tn, what, s2, a2, second_later as u8), b, "", "");
+            }
+        }
+        // the may-be-uninitialised flag on one of two data of a type that is not Copy, in both orders
+        if !*copy {
+            for second_later in [false, true] {
+                for flagged_first in [false, true] {
+                    let mut b = NativeRecordDefinitionBuilder::new(HostTypeResolver);
+                    add(&mut b, "first", ty, *size, *align, flagged_first);
+                    if second_later {
+                        b.close_record_variant();
+                    }
+                    add(&mut b, "second", ty, *size, *align, !flagged_first);
+                    b.close_record_variant();
+                    out.probe("C11", "reject", &format!("type {} (not Copy) recorded twice, the {} datum may stay uninitialised, second datum in variant {}", tn, if flagged_first { "first" } else { "second" }, second_later as u8), b, "", "");
+                }
             }
         }
     }
